@@ -41,6 +41,8 @@ type exchange struct {
 }
 
 type handshake struct {
+	// chunk: the peer's bytes reach the library at most this many per Read (0: whole messages)
+	chunk int
 	name  string
 	steps []exchange
 	run   func(ctx context.Context, c net.Conn) (*xmpp.Session, error)
@@ -60,6 +62,7 @@ type duplex struct {
 	failWr   int
 	notify   chan struct{}
 	// peer side
+	chunk   int  // at most this many bytes per Read (0: no limit)
 	cursor  int  // bytes of out the peer has read
 	stopped bool // the run is over
 	budget  int  // bytes the peer may still deliver (-1 unlimited)
@@ -154,6 +157,9 @@ func (d *duplex) Read(p []byte) (int, error) {
 	if len(d.in) == 0 {
 		return 0, io.EOF
 	}
+	if d.chunk > 0 && len(p) > d.chunk {
+		p = p[:d.chunk]
+	}
 	n := copy(p, d.in)
 	d.in = d.in[n:]
 	return n, nil
@@ -219,6 +225,7 @@ type hsResult struct {
 func play(h handshake, budget, failRd, failWr, cancelAt int) hsResult {
 	d := newDuplex()
 	d.failRd, d.failWr = failRd, failWr
+	d.chunk = h.chunk
 	ctx, cancel := context.WithCancel(context.Background())
 	defer cancel()
 	d.budget = budget
@@ -353,6 +360,29 @@ const (
 	nsBind    = "urn:ietf:params:xml:ns:xmpp-bind"
 )
 
+var reEmpty = regexp.MustCompile(`<([A-Za-z][\w:.-]*)((?:\s[^<>]*?)?)/>`)
+
+// longSpelling rewrites every empty element `<x …/>` the peer sends as `<x …></x>`.
+func longSpelling(h handshake) handshake {
+	out := h
+	out.name = h.name + "+l"
+	out.steps = nil
+	for _, st := range h.steps {
+		st.send = reEmpty.ReplaceAllString(st.send, "<$1$2></$1>")
+		out.steps = append(out.steps, st)
+	}
+	return out
+}
+
+// allHandshakes: every handshake with both spellings of the empty elements the peer sends.
+func allHandshakes() []handshake {
+	var out []handshake
+	for _, h := range realHandshakes() {
+		out = append(out, h, longSpelling(h))
+	}
+	return out
+}
+
 func realHandshakes() []handshake {
 	me := jid.MustParse("me@example.net")
 	srv := jid.MustParse("example.net")
@@ -462,11 +492,11 @@ func emitHS(r *common.Run, h handshake, kind string, n int, res hsResult) {
 		r.Fail("panic", "real:"+h.name+":"+kind, lines, "negotiation panicked: "+res.err)
 	case res.outcome == "STALL":
 		r.Fail("stall", "real:"+h.name+":"+kind, lines, "session establishment did not return")
-	case (kind == "clean" || kind == "pclean") && res.outcome != "done":
+	case (kind == "clean" || kind == "pclean" || kind == "cleanb") && res.outcome != "done":
 		r.Fail("harness", "real-handshake-not-clean:"+h.name, lines, "the fault-free handshake fails: "+res.err)
-	case kind != "clean" && kind != "pclean" && res.outcome == "done":
+	case kind != "clean" && kind != "pclean" && kind != "cleanb" && res.outcome == "done":
 		r.Fail("fail-closed", "real:"+h.name+":"+kind, lines, fmt.Sprintf("fault %s %d: session establishment returned a nil error", kind, n))
-	case kind != "clean" && kind != "pclean" && res.ready:
+	case kind != "clean" && kind != "pclean" && kind != "cleanb" && res.ready:
 		r.Fail("fail-closed", "real-ready-on-error:"+h.name+":"+kind, lines, "session establishment failed ("+res.err+") but the ready bit is set")
 	}
 }
@@ -612,6 +642,12 @@ func playKind(h handshake, kind string, n int) hsResult {
 		return play(h, -1, -1, n, -1)
 	case "cancel":
 		return play(h, -1, -1, -1, n)
+	case "cleanb":
+		h.chunk = 1
+		return play(h, -1, -1, -1, -1)
+	case "rdb":
+		h.chunk = 1
+		return play(h, -1, n, -1, -1)
 	case "pclean":
 		return playPipe(h, -1, -1)
 	case "pwr":
@@ -631,7 +667,7 @@ func replayHS(r *common.Run, f []string) error {
 	if _, err := fmt.Sscanf(f[3], "%d", &n); err != nil {
 		return err
 	}
-	for _, h := range realHandshakes() {
+	for _, h := range allHandshakes() {
 		if h.name == f[1] {
 			res := playKind(h, f[2], n)
 			if f[2] == "cut" && !res.cutHit {
@@ -647,7 +683,7 @@ func replayHS(r *common.Run, f []string) error {
 // runReal enumerates the fault points of the real handshakes.
 func runReal(r *common.Run) {
 	stride := r.Pick(7, 1)
-	for _, h := range realHandshakes() {
+	for _, h := range allHandshakes() {
 		h := h
 		emit := func(kind string, n int, res hsResult) { emitHS(r, h, kind, n, res) }
 		clean := play(h, -1, -1, -1, -1)
@@ -669,6 +705,20 @@ func runReal(r *common.Run) {
 		}
 		for k := 0; k < clean.writes; k++ {
 			emit("wr", k, play(h, -1, -1, k, -1))
+		}
+		// a peer whose output arrives byte by byte: every read index is a byte position, so a
+		// failing read hits every position inside every element
+		hb := h
+		hb.chunk = 1
+		cb := play(hb, -1, -1, -1, -1)
+		emit("cleanb", 0, cb)
+		if cb.outcome == "done" {
+			for k := 0; k < cb.reads; k++ {
+				if (k+off)%stride != 0 && k > 3 && k < cb.reads-16 {
+					continue
+				}
+				emit("rdb", k, play(hb, -1, k, -1, -1))
+			}
 		}
 		for j := 0; j < len(h.steps); j++ {
 			if h.steps[j].send == "" {
@@ -693,5 +743,5 @@ func runReal(r *common.Run) {
 			emit("prd", j, playPipe(h, -1, j))
 		}
 	}
-	r.Exhaustive = append(r.Exhaustive, "real SASL PLAIN + bind (initiator TCP, initiator WebSocket, receiver) and component handshakes: every byte prefix of the peer's stream (thorough; every 7th in quick), every failing Read, every failing Write, cancellation before every peer step; and over a real net.Pipe: cancellation while blocked in each write (peer stops reading) and in a read before each peer step")
+	r.Exhaustive = append(r.Exhaustive, "each with both spellings of the peer's empty elements (<x/> and <x></x>): real SASL PLAIN + bind (initiator TCP, initiator WebSocket, receiver) and component handshakes: every byte prefix of the peer's stream (thorough; every 7th in quick), every failing Read, every failing Write, a byte-by-byte peer with every failing read (= every byte position), cancellation before every peer step; and over a real net.Pipe: cancellation while blocked in each write (peer stops reading) and in a read before each peer step")
 }
